@@ -14,6 +14,7 @@ import (
 
 	"github.com/icon-project/goloop/common"
 	"github.com/icon-project/goloop/common/log"
+	"github.com/icon-project/goloop/consensus"
 	"github.com/icon-project/goloop/test"
 
 	"verif/sim/kit"
@@ -231,6 +232,7 @@ func (e engine) Run(rc *kit.RunCtx) {
 	s := &sim{rc: rc, tape: rc.Tape, t: e.t, wake: make(chan struct{}, 1), mutexes: map[*common.Mutex]*mutexState{}, part: map[[2]int]bool{}}
 	s.orc = newOracle(s)
 	s.byz = newByzantine(s)
+	consensus.SimResetVoteSetIDs()
 	s.drawConfig()
 	defer func() {
 		common.SimLockHook, common.SimUnlockHook = nil, nil
